@@ -392,6 +392,11 @@ theorem refSeq_cons (d : Nat → Bool) (rest : List (Nat → Bool)) (off : Nat) 
     · simp [h1, h2]
 
 
+theorem refSeq_length (dss : List (Nat → Bool)) (off : Nat) (s : List Nat) : (refSeq dss off s).length = dss.length := by
+  induction dss generalizing off s with
+  | nil => rfl
+  | cons d rest ih => rw [refSeq_cons, List.length_cons, ih, List.length_cons]
+
 theorem getD_of_drop (l : List Nat) (k x : Nat) (r : List Nat) (h : l.drop k = x :: r) : l.getD k 0 = x := by
   have : (l.drop k)[0]? = some x := by rw [h]; rfl
   rw [List.getElem?_drop] at this
